@@ -1399,12 +1399,28 @@ class C18(Prop):
         F = []
         samples = []
         hist = {}
-        for sh, p in procs:
+        # the model's prediction (Model/Alloc.v, extracted): may the i-th call allocate?
+        drv = os.path.join(vlib.OCAML, 'model_driver')
+        mprocs = []
+        for k, sh in enumerate(shards):
+            pth = os.path.join(d, 'al%d.cases' % k)
+            mprocs.append(subprocess.Popen([drv, pth], stdout=subprocess.PIPE, stderr=subprocess.PIPE))
+        preds = []
+        for sh, mp in zip(shards, mprocs):
+            so, se = mp.communicate(timeout=1200)
+            mb = vlib.parse_blocks(so.decode('utf-8', 'replace'))
+            while len(mb) < len(sh):
+                mb.append(['al pred=?'])
+            preds.append(mb)
+        npred0 = 0
+        for (sh, p), mbs in zip(procs, preds):
             so, se = p.communicate(timeout=600)
             blocks = vlib.parse_blocks(so.decode('utf-8', 'replace'))
             while len(blocks) < len(sh):
                 blocks.append(['al crashed'])
-            for c, b in zip(sh, blocks):
+            for c, b, mb in zip(sh, blocks, mbs):
+                mline = mb[0] if mb else 'al pred=?'
+                pred = mline.split('pred=')[1] if 'pred=' in mline else '?'
                 stats['evaluations'] += 1
                 line = b[0] if b else 'al crashed'
                 fields = dict(x.split('=') for x in line.split(' ')[1:] if '=' in x)
@@ -1419,13 +1435,25 @@ class C18(Prop):
                             fields['allocs_after_warm'], fields['first_alloc_call'], fields['calls'], fields['warm']))
                     if int(fields['grows_after_warm']) != 0:
                         fails.append('the policy was consulted %s times in steady state' % fields['grows_after_warm'])
+                    # tie to the Coq model: wherever Model/Alloc.v predicts "no mark rises, policy not consulted"
+                    # the measured call must not allocate (whatever the warm-up)
+                    meas = fields.get('meas', '')
+                    if pred == '?' or len(pred) < len(meas):
+                        fails.append('no prediction from the model for this case: %s' % mline[:60])
+                    else:
+                        for i, (pb, mbit) in enumerate(zip(pred, meas)):
+                            if pb == '0':
+                                npred0 += 1
+                                if mbit == '1':
+                                    fails.append('call %d allocates although the model (high-water marks) predicts no allocation' % i)
+                                    break
                     k = c.split(' ')[1] + '/' + c.split(' ')[4]
                     hist[k] = hist.get(k, 0) + 1
                 if fails:
                     F.append(({'case': c[:3000], 'impl': b, 'model': None, 'spec': [], 'noshrink': True}, fails))
                 if len(samples) < 3:
                     samples.append(c[:160] + ('...' if len(c) > 160 else '') + '  ->  ' + line)
-        return F, {'samples': samples, 'mode_hist': hist}
+        return F, {'samples': samples, 'mode_hist': hist, 'calls_predicted_allocation_free_by_the_model': npred0}
 
     def rule(self, tier):
         return ('inputs of 40-200 records whose first quarter are the largest (later ones equal or slightly smaller), FASTA (1-5 lines) and FASTQ, LF/CRLF, '
